@@ -479,8 +479,12 @@ def vocabulary(rec, cap):
         tier1.append("</%s>" % tn)
         for fx in sorted(fixed_names):
             tier1.append("<%s %s>" % (tn, fx))
+            if "s" in fx:       # U+017F lower-cases to itself (and case-folds to 's'): not the fixed name
+                tier1.append("<%s %s/>" % (tn, fx.replace("s", "\u017f")))
+        if "s" in tn:           # ... and not the declared type
+            tier1.append("<%s n1/>" % tn.replace("s", "\u017f", 1))
         tier2.append("<%s N1>" % tn.upper())
-        tier2.append("<%s n2/>" % tn)
+        tier2.append("<%s n\u00df/>" % tn)     # a name that lower-cases to itself but case-folds to 'nss'
         tier2.append("<%s/>" % tn)
         tier3.append("<%s *>" % tn)
         tier3.append("<%s +>" % tn)
